@@ -213,6 +213,45 @@ class Body:
             return True
         return dst not in self.reach_from(src, removed_blocks=(a,))
 
+    def postdominators(self):
+        """pdom[b] = blocks on every path from b to an exit (return / diverging block), including b"""
+        if getattr(self, "_pdom", None) is None:
+            reach = sorted(b for b in self.reachable() if self.term(b)["k"] != "unreachable")
+            allb = set(reach)
+            pd = {b: set(allb) for b in reach}
+            for b in reach:
+                if not [s for s in self.succ(b) if s in allb]:
+                    pd[b] = {b}
+            changed = True
+            while changed:
+                changed = False
+                for b in reversed(reach):
+                    ss = [s for s in self.succ(b) if s in allb]
+                    if not ss:
+                        continue
+                    new = set.intersection(*(pd[s] for s in ss)) | {b}
+                    if new != pd[b]:
+                        pd[b] = new
+                        changed = True
+            self._pdom = pd
+        return self._pdom
+
+    def control_dependents(self, s):
+        """blocks whose execution depends on which way the branch at the end of block s goes"""
+        pd = self.postdominators()
+        if s not in pd:
+            return set()
+        strict = pd[s] - {s}
+        out = set()
+        for t in self.succ(s):
+            if t not in pd:
+                continue
+            # walk t up its postdominator chain until the first strict postdominator of s
+            for x in self.reachable():
+                if x in pd[t] and x not in strict:
+                    out.add(x)
+        return out
+
     def return_blocks(self):
         return [b for b in self.reachable() if self.term(b)["k"] == "return"]
 
@@ -730,6 +769,23 @@ def summary(facts, callee, depth, stack=()):
     return r
 
 
+def closure_summary(facts, callee, depth, stack=()):
+    """return-value term of a closure body: parameter 0 is the environment (captures as tuple fields), 1.. the arguments"""
+    key = (id(facts), callee, depth, "closure")
+    if key in _SUMMARY:
+        return _SUMMARY[key]
+    cb = facts.bodies.get(callee)
+    r = None
+    if cb is not None and len(cb.blocks) <= 80:
+        _SUMMARY[key] = None
+        sub = Terms(facts, cb, depth, _stack=stack + (callee,))
+        r = sub.local(0)
+        if _size(r) > 500:
+            r = None
+    _SUMMARY[key] = r
+    return r
+
+
 class Terms:
     """Copy-propagating symbolic term builder for one body.
 
@@ -907,6 +963,15 @@ class Terms:
             return ("cmp", c, args[0], args[1])
         if is_transparent(callee) and len(args) == 1:
             return args[0]
+        # a direct call of a closure value (`let f = |x| …; f(a)`): the closure body is part of this function's source
+        cb = self.facts.bodies.get(callee)
+        if cb is not None and cb.kind == "closure" and len(args) == 2 and callee not in self._stack \
+                and isinstance(args[0], tuple) and args[0] and args[0][0] == "closure" and args[0][1] == callee \
+                and isinstance(args[1], tuple) and args[1] and args[1][0] == "tuple":
+            summ = closure_summary(self.facts, callee, self.inline_depth, self._stack + (self.body.id,))
+            if summ is not None:
+                self.inlined.add(callee)
+                return subst(summ, [("tuple", tuple(args[0][2]))] + list(args[1][1]))
         # inline workspace helpers through their (cached) summaries
         if self.inline_depth > 0 and callee in self.facts.bodies and callee not in self._stack:
             summ = summary(self.facts, callee, self.inline_depth - 1, self._stack + (self.body.id,))
